@@ -35,12 +35,12 @@ def event_as_json(sub_id, event):
     """
     if event.tags:
         tags = ",".join(
-            f"""[{",".join((encode_basestring(i) if isinstance(i, str) else str(i)) for i in t)}]"""
+            f"""[{",".join((encode_basestring(i) if isinstance(i, str) else json_dumps(i)) for i in t)}]"""
             for t in event.tags
         )
     else:
         tags = ""
-    return f'["EVENT","{sub_id}",{{"id":"{event.id}","created_at":{event.created_at},"pubkey":"{event.pubkey}","kind":{event.kind},"sig":"{event.sig}","content":{encode_basestring(event.content)},"tags":[{tags}]}}]'
+    return f'["EVENT",{encode_basestring(sub_id)},{{"id":"{event.id}","created_at":{event.created_at},"pubkey":"{event.pubkey}","kind":{event.kind},"sig":"{event.sig}","content":{encode_basestring(event.content)},"tags":[{tags}]}}]'
 
 
 class catchtime:
